@@ -37,6 +37,42 @@ func TestVerifRPQTruth(t *testing.T) {
 				fmt.Printf("SACKLIE %s maxoff=%d words=%d seed=%d case=%d script=%v\n", what, maxOff, len(q.tsnBitmask), seed, c, script[max(0, len(script)-12):])
 			}
 		}
+		checkAck := func() bool {
+			// acknowledgement check
+			acks++
+			if q.getcumulativeTSN() != uint32(cumK) {
+				lie(fmt.Sprintf("cumulative TSN %d, ghost %d", q.getcumulativeTSN(), uint32(cumK)))
+				return false
+			}
+			named := map[uint64]bool{}
+			prevEnd := uint64(0)
+			for _, b := range q.getGapAckBlocks() {
+				if b.start < 2 && b.start != 1 || b.end < b.start || uint64(b.start) <= prevEnd && prevEnd != 0 {
+					lie(fmt.Sprintf("malformed gap block %d-%d", b.start, b.end))
+				}
+				if prevEnd != 0 && uint64(b.start) == prevEnd+1 {
+					lie(fmt.Sprintf("adjacent gap blocks not merged at %d", b.start))
+				}
+				prevEnd = uint64(b.end)
+				for o := uint64(b.start); o <= uint64(b.end); o++ {
+					named[cumK+o] = true
+					if !recv[cumK+o] {
+						lie(fmt.Sprintf("gap block %d-%d names offset %d (TSN %d) which was never received", b.start, b.end, o, uint32(cumK+o)))
+						break
+					}
+				}
+			}
+			for k := range recv {
+				if !named[k] {
+					lie(fmt.Sprintf("received TSN %d (offset %d) is not reported by any gap block", uint32(k), k-cumK))
+					break
+				}
+			}
+			if q.size() != len(recv) {
+				lie(fmt.Sprintf("size %d, ghost %d", q.size(), len(recv)))
+			}
+			return true
+		}
 		dense := rng.Intn(2) == 0
 		for i := 0; i < nOps; i++ {
 			r := rng.Intn(100)
@@ -91,40 +127,31 @@ func TestVerifRPQTruth(t *testing.T) {
 					lie(fmt.Sprintf("pop(force) returned %v for %d, ghost %v", ok, uint32(cumK), recv[cumK]))
 				}
 				delete(recv, cumK)
-			default:
-			}
-			// acknowledgement check
-			acks++
-			if q.getcumulativeTSN() != uint32(cumK) {
-				lie(fmt.Sprintf("cumulative TSN %d, ghost %d", q.getcumulativeTSN(), uint32(cumK)))
-				break
-			}
-			named := map[uint64]bool{}
-			prevEnd := uint64(0)
-			for _, b := range q.getGapAckBlocks() {
-				if b.start < 2 && b.start != 1 || b.end < b.start || uint64(b.start) <= prevEnd && prevEnd != 0 {
-					lie(fmt.Sprintf("malformed gap block %d-%d", b.start, b.end))
+			case r < 87:
+				// a run of consecutive TSNs in order (whole bitmap words become all-ones), acknowledgement checked after each
+				k := cumK + 2 + uint64(rng.Intn(3))
+				for recv[k] {
+					k++
 				}
-				if prevEnd != 0 && uint64(b.start) == prevEnd+1 {
-					lie(fmt.Sprintf("adjacent gap blocks not merged at %d", b.start))
-				}
-				prevEnd = uint64(b.end)
-				for o := uint64(b.start); o <= uint64(b.end); o++ {
-					named[cumK+o] = true
-					if !recv[cumK+o] {
-						lie(fmt.Sprintf("gap block %d-%d names offset %d (TSN %d) which was never received", b.start, b.end, o, uint32(cumK+o)))
+				runLen := 60 + rng.Intn(160)
+				script = append(script, fmt.Sprintf("run %d+%d", uint32(k), runLen))
+				for j := 0; j < runLen && k <= cumK+mo; j, k = j+1, k+1 {
+					if recv[k] {
+						continue
+					}
+					if q.push(uint32(k)) {
+						recv[k] = true
+					} else {
+						lie(fmt.Sprintf("push(%d) inside the window refused", uint32(k)))
+					}
+					if !checkAck() {
 						break
 					}
 				}
+			default:
 			}
-			for k := range recv {
-				if !named[k] {
-					lie(fmt.Sprintf("received TSN %d (offset %d) is not reported by any gap block", uint32(k), k-cumK))
-					break
-				}
-			}
-			if q.size() != len(recv) {
-				lie(fmt.Sprintf("size %d, ghost %d", q.size(), len(recv)))
+			if !checkAck() {
+				break
 			}
 			if lies > 20 {
 				break
